@@ -166,6 +166,46 @@ theorem table_if_lazy_current (hU : Universe U) (cached : Bool) (c t e : Expr)
   rw [h1]
   exact if_lazy_then c t e cv hc ht
 
+/-! ### numpy object arrays -/
+
+/-- **The numpy-array handler of the current source is the recognised fill loop**: `map_foreign`
+sends `numpy.ndarray` objects to `map_numpy_array`, whose body is `result = numpy.empty(expr.shape,
+dtype=object); for i in numpy.ndindex(expr.shape): result[i] = self.rec(expr[i]); return result`
+(read statement by statement by `extract/evaluator.py: read_array_handler`; any other body is
+`.other src` and this obligation breaks). -/
+theorem array_handler_current :
+    tableCurrent.arrayBody = .ndindexFill "map_numpy_array"
+      ∧ tableCurrent.foreign.lookup "numpy" = some "map_numpy_array" := by decide
+
+/-- the handler applies: the table interpreter runs `c02ArrayRun` on arrays -/
+theorem array_dispatch_current (cached : Bool) (a : C02Array Expr) :
+    c02ArrayT tableCurrent cached env a = some (c02ArrayRun tableCurrent cached env a) := by
+  simp only [c02ArrayT, array_handler_current.1]
+
+/-- **Arrays mean their entries**: the plain evaluator of the current table, run on an object
+array (any shape, entries in row-major order) from any state reachable in a history, returns the
+array of the SAME shape whose entries are the standard meanings `den` of the entries — or the first
+error in row-major order — and re-establishes the history invariant. -/
+theorem array_eq_den_current (hU : Universe U) (a : C02Array Expr) (h : ∀ e ∈ a.flat, U e)
+    (s : EvState) (hs : EvInv env U s) :
+    ∃ s', c02ArrayRun tableCurrent false env a s
+        = ((denList env a.flat).map (fun vs => (⟨a.shape, vs⟩ : C02Array Value)), s')
+      ∧ EvInv env U s' := by
+  obtain ⟨s', h1, i1⟩ := list_sim hU false a.flat h s hs
+  rw [evalList_eq_runs, runs_eq_table_current] at h1
+  refine ⟨s', ?_, i1⟩
+  have hm : (c02MemoActive tableCurrent false && tableCurrent.memo.keyExpr) = false := by decide
+  simp only [c02ArrayRun, hm, h1]
+  cases denList env a.flat <;> rfl
+
+/-- the memoizing evaluator cannot take an array at all: building the cache key hashes the
+ndarray (known finding `unhashable-ndarray`, like `unhashable-list`) -/
+theorem array_cached_raises_current (a : C02Array Expr) (s : EvState) :
+    c02ArrayRun tableCurrent true env a s = (.error .typeError, s) := by
+  have hm : (c02MemoActive tableCurrent true && tableCurrent.memo.keyExpr) = true := by decide
+  simp only [c02ArrayRun, hm]
+  rfl
+
 /-! ### Decidable facts about the regenerated table -/
 
 /-- the attribute names the IR (and `harness/sexp.py`) assumes for every node class are the
